@@ -95,6 +95,8 @@ def apply_op(Food, op, x, y):
         return x.get_month(1)
     if op == "GetItem":
         return x[1]
+    if op == "GetItemNp":
+        return x[np.int64(1)]
     if op == "Sum":
         return x.get_nutrients_sum()
     if op == "MinAll":
